@@ -157,10 +157,10 @@ for root in (1, 0):
        desc="attr_path_parse on ALL byte strings of 7 characters (%s path), real table sizes: accepted <=> documented syntax, component count, no memory error, no leak" % rn)
     ob("apath.parse.scaled.n7.%s" % rn, "apath/apath.c", ["-DNSTR=7", "-DROOT=%d" % root], ["C19", "C10"], unwind=12, scaled=SC,
        desc="same on the scaled twin (ATTR_PATH_COMP_MAX 64->3, ATTR_PATH_NAME_MAX 255->6): the component-count and name-length limits are inside the bound (%s path)" % rn)
-    ob("apath.print.scaled.n4.%s" % rn, "apath/apath.c", ["-DNSTR=4", "-DWITH_PRINT", "-DROOT=%d" % root], ["C19"], unwind=10, scaled=SC,
-       desc="parse -> to_str -> parse round trip, attr_path_len, equal_str on all 4-character strings (%s path)" % rn)
-    ob("apath.print.scaled.n5.%s" % rn, "apath/apath.c", ["-DNSTR=5", "-DWITH_PRINT", "-DROOT=%d" % root], ["C19"], unwind=10, scaled=SC, tier="thorough", timeout=3000, mem_gb=30,
+    ob("apath.print.scaled.n5.%s" % rn, "apath/apath.c", ["-DNSTR=5", "-DWITH_PRINT", "-DROOT=%d" % root], ["C19"], unwind=10, scaled=SC, quick_only=True,
        desc="parse -> to_str -> parse round trip, attr_path_len, equal_str on all 5-character strings (%s path)" % rn)
+    ob("apath.print.scaled.n7.%s" % rn, "apath/apath.c", ["-DNSTR=7", "-DWITH_PRINT", "-DROOT=%d" % root], ["C19"], unwind=12, scaled=SC, tier="thorough", timeout=3000, mem_gb=30,
+       desc="parse -> to_str -> parse round trip, attr_path_len, equal_str on all 7-character strings (%s path)" % rn)
     ob("apath.parse.scaled.n9.%s" % rn, "apath/apath.c", ["-DNSTR=9", "-DROOT=%d" % root], ["C19", "C10"], unwind=14, tier="thorough", timeout=2400,
        scaled=[("libxcm/core/attr_path.h", "ATTR_PATH_COMP_MAX", 4), ("libxcm/core/attr_path.h", "ATTR_PATH_NAME_MAX", 8), ("libxcm/core/attr_path.c", None, None)],
        desc="scaled twin (COMP_MAX 4, NAME_MAX 8), all 9-character strings (%s path)" % rn)
@@ -260,3 +260,33 @@ for p in ("C01", "C03", "C08", "C17"):
     PROPERTY_META.setdefault(p, {"assumptions": [], "trusted_base": []})
     PROPERTY_META[p].setdefault("assumptions", [])
     PROPERTY_META[p]["assumptions"] += ["ux/uxf over KERNEL-SEQPACKET (send with MSG_EOR is all-or-nothing; recv with MSG_TRUNC returns the real record length) and a KERNEL-FD ghost table in which socket/setsockopt/bind/listen/connect/accept fail at the solver's choice"]
+
+# --------------------------------------------------------------------------
+# L4 dispatch layer: xcm_tp.c over a mock ops table and a mock control interface
+# --------------------------------------------------------------------------
+ob("tp.dispatch", "tp/tp.c", ["-DOP_DISPATCH"], ["C04", "C14", "C06"], unwind=14,
+   desc="xcm_tp_socket_send/receive/finish/connect/server/accept over a mock transport with any result: result and errno passed through, update follows every operation (auto-update), <= 1 control round, none on failed connections")
+ob("tp.life", "tp/tp.c", ["-DOP_LIFE"], ["C08", "C14"], unwind=14, desc="xcm_tp_socket_close/cleanup: control interface destroyed with the same ownership before the transport")
+ob("tp.service", "tp/tp.c", ["-DOP_SERVICE"], ["C11"], unwind=14, desc="xcm.service accepts exactly 'any' and the actual service for all 11-char strings; xcm.blocking = xcm_set_blocking")
+for (g, sfn, t) in extract_attrs("libxcm/tp/common/xcm_tp.c"):
+    ob("tp.getter." + g, "tp/tp.c", ["-DOP_GETTER", "-DGETTER=" + g, "-DGSIZE=%d" % GSIZE.get(t, 0)], ["C10"] + (["C17"] if "_bytes" in g or "_msgs" in g else []), unwind=20,
+       desc="real common getter %s (%s), any socket kind, mock transport strings of 0..6 chars (or NULL), every capacity" % (g, t))
+
+# --------------------------------------------------------------------------
+# btls: xcm_tp_btls.c data path, readiness and verification gate over OPENSSL contract stubs
+# --------------------------------------------------------------------------
+BTLS = {
+    "SEND": (["C02", "C05", "C06", "C07", "C09", "C17"], "btls_send from any connection state: handshake outcome x OpenSSL verdicts (WANT_READ/WRITE, ZERO_RETURN, SSL, SYSCALL+errno, error queue): one SSL_write with the caller's arguments only when established and the peer passed the policy, result mapping, counters"),
+    "RECV": (["C02", "C05", "C06", "C07", "C09", "C17"], "btls_receive, same space"),
+    "FINISH": (["C04", "C06", "C09", "C16"], "btls_finish: succeeds only when established and verified; does not disturb the recorded OpenSSL wants"),
+    "UPDATE": (["C04", "C16"], "btls_update against the relational wake-up/quiet specification for every (state, awaited condition, ssl_condition, ssl_wants, SSL_has_pending)"),
+    "BIO": (["C02", "C04", "C06"], "bio_btcp_read/write/ctrl: result passed through, retry flags iff EAGAIN, EOF flag"),
+}
+for op, (props, d) in BTLS.items():
+    ob("btls." + op.lower(), "btls/btls.c", ["-DOP_" + op], props, unwind=10, desc=d)
+_openssl = ["OPENSSL contract stubs: SSL_connect/accept/read/write return >0, or <=0 with SSL_get_error in {WANT_READ, WANT_WRITE, ZERO_RETURN, SSL, SYSCALL(+errno in {0, EPIPE, ECONNRESET, ETIMEDOUT, EHOSTUNREACH, ENETUNREACH, EINPROGRESS})}, error queue empty or not, SSL_has_pending arbitrary, peer certificate present or not, verify result OK or any error - all at the solver's choice",
+            "what OpenSSL itself does with certificates, records and the wire is outside the claim (C09: XCM's half only)"]
+for p in ("C02", "C06", "C07", "C09", "C16", "C04"):
+    PROPERTY_META.setdefault(p, {"assumptions": [], "trusted_base": []})
+    PROPERTY_META[p].setdefault("assumptions", [])
+    PROPERTY_META[p]["assumptions"] += _openssl
